@@ -53,6 +53,11 @@ def cells_events(rec, nfl):
         # with it the logicle parameters derived from each file
         fsc[290:292] = [-(1.0 + rec['seed'] % 97), -0.5]
         ssc[292] = -(2.0 + rec['seed'] % 31)
+    if n > 300 and rec['seed'] % 4 == 1:
+        # ... and the most negative scatter events may sit among the events that the workflow discards first (the
+        # first 250 and the last 100), so that the scale derived from the whole file differs from the gated sample's
+        fsc[12] = -(400.0 + rec['seed'] % 53)
+        ssc[n - 20] = -(350.0 + rec['seed'] % 41)
     if n > 300 and rec['seed'] % 3 != 0:
         # float data may exceed the declared range: a few scatter events beyond $PnR-1
         fsc[280:283] = [R * 1.4, R * 2.0, R + 5.0]
@@ -96,6 +101,13 @@ def file_spec(rec, inst):
     volt = rec.get('volt') or [500 + 50 * i for i in range(D - 1)]
     pnv = [str(v) for v in volt[:D - 1]] + [None]
     png = [None] * D if dt == 'I' else (['1.0', '1.0'] + ['2.0'] * len(fl) + [None])
+    if rec.get('extra_first'):
+        # a parameter the instrument sheet does not mention, stored in front of the others: same channel names, other
+        # column positions than the rest of the instrument's files
+        names = ['AUX-W'] + names
+        pne, pnv, png = ['0,0'] + pne, [None] + pnv, [None] + png
+        ev = [[(7 * i) % 200 if dt == 'I' else float((7 * i) % 200)] + list(row) for i, row in enumerate(ev)]
+        D += 1
     return dict(version='FCS3.0', datatype=dt, byteord='1,2,3,4' if dt == 'F' else '4,3,2,1',
                 widths=[16 if dt == 'I' else 32] * D, ranges=[int(rec.get('res', 1024))] * D, names=names, pne=pne, pnv=pnv, png=png,
                 events=ev, extra=[['$TIMESTEP', str(rec.get('timestep', '0.1'))], ['$BTIM', '12:00:00'], ['$ETIM', '12:05:00'], ['$DATE', '01-JAN-2020']])
@@ -122,22 +134,27 @@ def materialise(case, d):
             if c not in all_fl:
                 all_fl.append(c)
     mef_cols = [c for c in all_fl if any(c in b['mef'] for b in case['beads'])]
+    # header spellings: the documented '<channel> Units' / '<channel> MEF Values', or (header_ws) the same words with
+    # stray blanks around and between them, which the workflow accepts as well
+    ws = bool(case.get('header_ws'))
+    uh = lambda c: (('%s Units ' % c) if len(c) % 2 else (' %s  Units' % c)) if ws else '%s Units' % c
+    mh = lambda c: ('%s  MEF Values ' % c) if ws else '%s MEF Values' % c
     bt = pd.DataFrame([dict([('ID', b['id']), ('Instrument ID', b['instrument']), ('File Path', b['file'])] +
-                            [('%s MEF Values' % c, b['mef'].get(c)) for c in mef_cols] +
+                            [(mh(c), b['mef'].get(c)) for c in mef_cols] +
                             [('Gate Fraction', b['gate_fraction']), ('Clustering Channels', ', '.join(b['clustering']))])
                        for b in case['beads']],
-                      columns=['ID', 'Instrument ID', 'File Path'] + ['%s MEF Values' % c for c in mef_cols] +
+                      columns=['ID', 'Instrument ID', 'File Path'] + [mh(c) for c in mef_cols] +
                               ['Gate Fraction', 'Clustering Channels']).set_index('ID')
     unit_cols = [c for c in all_fl if any(c in s['units'] for s in case['samples'])]
     stab = pd.DataFrame([dict([('ID', s['id']), ('Instrument ID', s['instrument']), ('Beads ID', s.get('beads')),
-                               ('File Path', s['file'])] + [('%s Units' % c, s['units'].get(c)) for c in unit_cols] +
+                               ('File Path', s['file'])] + [(uh(c), s['units'].get(c)) for c in unit_cols] +
                               [('Gate Fraction', s['gate_fraction']), ('Strain', s.get('strain', 'wt'))])
                          for s in case['samples']],
-                        columns=['ID', 'Instrument ID', 'Beads ID', 'File Path'] + ['%s Units' % c for c in unit_cols] +
+                        columns=['ID', 'Instrument ID', 'Beads ID', 'File Path'] + [uh(c) for c in unit_cols] +
                                 ['Gate Fraction', 'Strain']).set_index('ID')
     for t in (bt, stab):
         for c in t.columns:
-            if c.endswith('Units') or c.endswith('MEF Values') or c == 'Beads ID':
+            if c.strip().endswith('Units') or c.strip().endswith('Values') or c == 'Beads ID':
                 t[c] = t[c].astype(object).where(t[c].notnull(), None)
     return it, bt, stab
 
